@@ -125,7 +125,14 @@ def workload(name, rng, params, length=None, d=None):
             if rng.random() < 0.8:
                 mu = mu + rng.choice([-1, 1], size=d) * float(rng.choice([3, 5, 8]))
             out.extend(rng.normal(mu, 1, size=(L, d)))
-        return out[:n]
+        out = out[:n]
+        if rng.random() < 0.2:
+            # drop-outs: runs of exact zero vectors, also at the very start of the stream
+            for _ in range(int(rng.integers(1, 5))):
+                pos = 0 if rng.random() < 0.3 else int(rng.integers(0, n))
+                for j in range(pos, min(n, pos + int(rng.integers(1, w + 2)))):
+                    out[j] = np.zeros(d)
+        return out
     d = d or n_features(name, rng)
     nb = length or int(rng.integers(8, 24))
     if name == "NNDVI":
